@@ -550,3 +550,17 @@ def c12_fact_survives_config_write(r):
         return False
     fields = [re.sub(r"_v\d+$", "", k) for k in (r.get("assignment") or {}) if k.startswith("cfg_")]
     return len(fields) != len(set(fields))
+
+
+# ---------------------------------------------------------------------------
+# C13
+
+
+def c13_join_none_is_identity(r):
+    """IndexRange.__or__ takes the other operand's end when one end is None (unbounded)"""
+    return r.get("property") == "C13" and r.get("function") == "join_contains"
+
+
+def c13_partial_eval_drops_offsets(r):
+    """IndexRange.partial_eval_with_range re-analyses only self.base and drops self.lo / self.hi"""
+    return r.get("property") == "C13" and r.get("function") == "partial_eval_contains"
